@@ -1,3 +1,125 @@
 import Anytree.Spec.Dict
+import Anytree.Lemmas.Dict
+/-!
+# C10 — dictionary export and import are faithful inverses of each other
+-/
 namespace Anytree.Props.C10
+open Anytree Tree Dict Spec
+open Anytree.Lemmas.Dict (toTree)
+variable {V : Type}
+
+/-- a key-unique association list is its own `dict(...)` -/
+theorem dictOf_unique (l : Attrs V) (h : (l.map Prod.fst).Nodup) : dictOf l = l :=
+  Lemmas.Dict.dictOf_unique l h
+
+/-- clean public attributes pass `_iter_attr_values` and `dict()` unchanged -/
+theorem clean_attrs_fixed (a : Attrs V) (h : CleanAttrs a) : dictOf (iterAttrValues a) = a :=
+  Lemmas.Dict.clean_attrs_fixed a h
+
+/-- `childiter` only returns children it was given -/
+def Selects (childiter : List (Tree (Attrs V)) → List (Tree (Attrs V))) : Prop :=
+  ∀ cs, ∀ x ∈ childiter cs, x ∈ cs
+
+/-- **export = plain dictionary of the exported view**: `attriter` at every node, `childiter` at every
+level, nodes at relative depth ≥ `maxlevel` cut, the start node always exported, `'children'` present
+only when non-empty — for every fuel (the mirror's and the view's fuel are the same parameter) -/
+theorem exportF_eq_plain_view (attriter : Attrs V → Attrs V)
+    (childiter : List (Tree (Attrs V)) → List (Tree (Attrs V))) (m : Option Int)
+    (hattr : ∀ a : Attrs V, ∀ e ∈ dictOf (attriter (iterAttrValues a)), e.1 ≠ "children") :
+    ∀ (fuel : Nat) (level : Int) (t : Tree (Attrs V)),
+      exportF attriter childiter m fuel level t = plainT (viewF attriter childiter m fuel level t) :=
+  fun fuel level t =>
+    Lemmas.Dict.exportF_eq_plain_view_of attriter childiter m (fun _ => True)
+      (fun a _ _ => hattr a) (fun _ _ _ _ _ => trivial) fuel level t trivial
+
+/-- the same with the "no `children` attribute" hypothesis restricted to a set `Q` of nodes that
+contains the start node and is closed under `childiter` (e.g. `Q = CleanT` for `childiter = id`) -/
+theorem exportF_eq_plain_view_of (attriter : Attrs V → Attrs V)
+    (childiter : List (Tree (Attrs V)) → List (Tree (Attrs V))) (m : Option Int)
+    (Q : Tree (Attrs V) → Prop)
+    (hQa : ∀ a cs, Q (node a cs) → ∀ e ∈ dictOf (attriter (iterAttrValues a)), e.1 ≠ "children")
+    (hQc : ∀ a cs, Q (node a cs) → ∀ c ∈ childiter cs, Q c) :
+    ∀ (fuel : Nat) (level : Int) (t : Tree (Attrs V)), Q t →
+      exportF attriter childiter m fuel level t = plainT (viewF attriter childiter m fuel level t) :=
+  Lemmas.Dict.exportF_eq_plain_view_of attriter childiter m Q hQa hQc
+
+/-- with the default options and enough fuel the exported view of a clean tree is the tree itself -/
+theorem view_default (t : Tree (Attrs V)) (h : CleanT t) :
+    ∀ fuel level, t.height < fuel → viewF id id none fuel level t = t :=
+  Lemmas.Dict.view_default t h
+
+/-- the start node is always exported, even for `maxlevel ≤ 1`; its children are cut then -/
+theorem export_maxlevel_le_one (attriter : Attrs V → Attrs V)
+    (childiter : List (Tree (Attrs V)) → List (Tree (Attrs V))) (k : Int) (hk : k ≤ 1)
+    (t : Tree (Attrs V)) :
+    exportD attriter childiter (some k) t = .mk (dictOf (attriter (iterAttrValues t.label))) none := by
+  cases t with
+  | node a cs =>
+    have hd : decide ((1 : Int) < k) = false := by
+      rw [decide_eq_false_iff_not]; omega
+    simp [exportD, exportF, hd]
+
+/-- the default export of a clean tree is its plain dictionary -/
+theorem export_default (t : Tree (Attrs V)) (h : CleanT t) : exportD id id none t = plainT t :=
+  Lemmas.Dict.exportD_default t h
+
+/-- **import ∘ export = id** (AnyNode and every class that stores keywords in order): for a clean
+tree, importing the default export rebuilds the same shape, child order and attributes -/
+theorem import_export (t : Tree (Attrs V)) (h : CleanT t) :
+    importT .anyNode (exportD id id none t) = some t := by
+  rw [Lemmas.Dict.exportD_default t h]
+  exact Lemmas.Dict.import_plain_anyNode t
+
+/-- for `Node` the same holds when every node's `name` is stored last, as `Node.__init__` does -/
+def NameLast (a : Attrs V) : Prop := ∃ v init, a = init ++ [("name", v)] ∧ ∀ e ∈ init, e.1 ≠ "name"
+mutual
+def NameLastT : Tree (Attrs V) → Prop
+  | node a cs => NameLast a ∧ NameLastL cs
+def NameLastL : List (Tree (Attrs V)) → Prop
+  | [] => True
+  | c :: cs => NameLastT c ∧ NameLastL cs
+end
+theorem import_export_node (t : Tree (Attrs V)) (h : CleanT t) (hn : NameLastT t) :
+    importT .node (exportD id id none t) = some t := by
+  rw [Lemmas.Dict.exportD_default t h]
+  apply Lemmas.Dict.import_plain
+  clear h
+  induction t using Tree.rec
+    (motive_2 := fun cs => NameLastL cs → ∀ a ∈ preL cs, ctorAttrs NodeCls.node a = some a) with
+  | node a cs ih =>
+    rw [NameLastT] at hn
+    intro b hb
+    rw [pre, List.mem_cons] at hb
+    rcases hb with rfl | hb
+    · exact Lemmas.Dict.ctorAttrs_node_nameLast _ hn.1
+    · exact ih hn.2 b hb
+  | nil => rename_i b hb; cases hb
+  | cons c cs ihc ihcs =>
+    rename_i hl b hb
+    rw [NameLastL] at hl
+    rw [preL, List.mem_append] at hb
+    rcases hb with hb | hb
+    · exact ihc hl.1 b hb
+    · exact ihcs hl.2 b hb
+
+/-- **export ∘ import = id up to empty `'children'` lists**, for every clean dictionary -/
+theorem export_import (d : DData V) (h : CleanD d) :
+    ∃ t, importT .anyNode d = some t ∧ exportD id id none t = stripEmptyT d :=
+  ⟨toTree d, Lemmas.Dict.import_anyNode_eq d, by
+    rw [Lemmas.Dict.exportD_default _ (Lemmas.Dict.clean_toTree d h), Lemmas.Dict.plain_toTree]⟩
+
+/-- import never fails for AnyNode; for Node it fails (TypeError) exactly when some dictionary lacks `name` -/
+theorem import_anyNode_total (d : DData V) : (importT .anyNode d).isSome = true := by
+  rw [Lemmas.Dict.import_anyNode_eq]; rfl
+
+/-- a dictionary without a `name` key makes `Node(**attrs)` fail (TypeError) -/
+theorem import_node_missing_name (a : Attrs V) (ch : Option (List (DData V)))
+    (h : ∀ e ∈ a, e.1 ≠ "name") : importT .node (.mk a ch) = none := by
+  have hfind : a.find? (fun e => e.1 == "name") = none := by
+    rw [List.find?_eq_none]
+    intro e he
+    simpa using h e he
+  have hc : ctorAttrs NodeCls.node a = none := by simp only [ctorAttrs, hfind]
+  rw [importT, hc]
+
 end Anytree.Props.C10
